@@ -48,9 +48,9 @@ def do_import(i, prop, outdir):
     print('imported', i, demos)
 
 
-def worktree():
+def worktree(rev='HEAD'):
     d = tempfile.mkdtemp(prefix='verif-seed.', dir='/var/tmp')
-    rc, out = sh(['git', '-C', '/repo', 'worktree', 'add', '--detach', '-f', d, 'HEAD'])
+    rc, out = sh(['git', '-C', '/repo', 'worktree', 'add', '--detach', '-f', d, rev])
     if rc:
         raise SystemExit(out)
     return d
@@ -69,7 +69,7 @@ def test_summary(out):
 
 def do_confirm(i):
     m = load(i)
-    d = worktree()
+    d = worktree(m.get('base_commit', 'HEAD'))
     env = dict(os.environ, CARGO_NET_OFFLINE='true', CARGO_TARGET_DIR=os.path.join(d, 'target'))
     if os.path.isdir('/repo/target'):
         subprocess.call(['cp', '-al', '/repo/target', os.path.join(d, 'target')])
@@ -127,7 +127,20 @@ def do_eval(i, props):
     if not props:
         man = json.load(open(os.path.join(HERE, 'MANIFEST.json')))
         props = [c['property_id'] for c in man['checks']]
-    r = mutant.run(os.path.join(SEED, i, 'patch.diff'), tests=False, props=props)
+    if m.get('base_commit'):
+        # the change was made against an older repository commit: evaluate the checks on that commit plus the change
+        d = tempfile.mkdtemp(prefix='verif-seed.', dir='/var/tmp')
+        try:
+            subprocess.check_call('git -C /repo archive %s | tar -x -C %s' % (m['base_commit'], d), shell=True)
+            subprocess.check_call(['git', 'apply', '--unsafe-paths', '--directory', d, os.path.join(SEED, i, 'patch.diff')], cwd='/')
+            r = {'checks': {}}
+            for pid in props:
+                c = subprocess.run([os.path.join(HERE, 'check'), pid, 'quick'], env=dict(os.environ, VERIF_REPO=d), capture_output=True, text=True, cwd=HERE)
+                r['checks'][pid] = {'rc': c.returncode, 'violations': re.findall(r'^  violation (\S+)', c.stdout, re.M)}
+        finally:
+            shutil.rmtree(d, ignore_errors=True)
+    else:
+        r = mutant.run(os.path.join(SEED, i, 'patch.diff'), tests=False, props=props)
     fired = {p: c['violations'] for p, c in r['checks'].items() if c['rc'] == 1}
     broken = {p: c for p, c in r['checks'].items() if c['rc'] not in (0, 1)}
     m['detection'] = {'checks_run': props, 'fired': fired, 'errors': broken, 'detected_by_target_property': m['property'] in fired}
